@@ -184,6 +184,9 @@ func timingsFor(s script, idx int, all bool) []timing {
 	lat := timingLattice(s)
 	near := 250 + (idx*37)%151
 	if all && s.needsDeadline() {
+		if idx%5 != 0 { // two rotating points; every fifth such script gets the whole lattice
+			return []timing{renderTiming(s, lat[idx%len(lat)], near), renderTiming(s, lat[(idx+7)%len(lat)], near)}
+		}
 		var out []timing
 		for _, c := range lat {
 			out = append(out, renderTiming(s, c, near))
